@@ -117,6 +117,8 @@ func (c *Conversation) End() (toSend []ValidMessage, err error) {
 		c.smp.wipe()
 		// Error can only happen when Rand reader is broken
 		toSend, _, err = c.createSerializedDataMessage(nil, messageFlagIgnoreUnreadable, []tlv{{tlvType: tlvTypeDisconnected}})
+		// the last message of the session that ends here must not be resent in a later one
+		c.resend.clear()
 	}
 	c.lastMessageStateChange = time.Time{}
 	c.ake = nil
